@@ -718,10 +718,10 @@ def step (fx : Bool) (g : Grows) (h : Heap) (r : Runner) : Op â†’ Option (Heap Ã
           else some (h, r)
         | none => some (h, r)
   | .readArr name vals =>
-    -- `expand.ReadFields` returns nil for a line without fields, else `make([]string, n)`
+    -- `expand.ReadFields` returns nil for a line without fields (stored as `[]string{}`), else `make([]string, n)`
     match setVar r { h with strs := if vals.isEmpty then h.strs else (sliceMake h.strs vals vals.length).1 } name
         { set := true, kind := .indexed,
-          list := if vals.isEmpty then Slice.nil else (sliceMake h.strs vals vals.length).2 } with
+          list := if vals.isEmpty then Slice.empty else (sliceMake h.strs vals vals.length).2 } with
     | none => none
     | some h' => some (h', r)
   | .setStr name val =>
@@ -729,8 +729,9 @@ def step (fx : Bool) (g : Grows) (h : Heap) (r : Runner) : Op â†’ Option (Heap Ã
     | none => none
     | some h' => some (h', r)
   | .mapfile name vals =>
-    match setVar r { h with strs := (sliceAppendList g.strs h.strs Slice.nil vals).1 } name
-        { kind := .indexed, list := (sliceAppendList g.strs h.strs Slice.nil vals).2 } with
+    -- vr.Set = true; vr.List = []string{}; then one append per line
+    match setVar r { h with strs := (sliceAppendList g.strs h.strs Slice.empty vals).1 } name
+        { set := true, kind := .indexed, list := (sliceAppendList g.strs h.strs Slice.empty vals).2 } with
     | none => none
     | some h' => some (h', r)
   | .shift n =>
